@@ -139,6 +139,9 @@ func relevantRace(rep string) bool {
 				if strings.HasPrefix(f, "runtime.") || strings.HasPrefix(f, "internal/") {
 					continue
 				}
+				if dataOnlyHelper(f) {
+					continue // works on the caller's data only: the access is the caller's
+				}
 				if strings.HasPrefix(f, composePrefix) {
 					ok++
 				}
@@ -147,6 +150,17 @@ func relevantRace(rep string) bool {
 		}
 	}
 	return blocks >= 2 && ok == blocks
+}
+
+// dataOnlyHelper: standard-library algorithms that touch nothing but the data handed to them (no state of their
+// own, no synchronisation of their own), so an access reported inside them is an access of their caller.
+func dataOnlyHelper(frame string) bool {
+	for _, p := range []string{"sort.", "slices.", "maps.", "reflect.Swapper", "reflect.typedmemmove", "reflect.Copy", "reflect.typedslicecopy", "strings.", "bytes."} {
+		if strings.HasPrefix(frame, p) {
+			return true
+		}
+	}
+	return false
 }
 
 // RaceSite extracts a stable key from a report: the top compose-go frame of each racing access.
